@@ -182,7 +182,37 @@ func ruleCacheRecursion(c *Ctx) {
 			return true
 		}
 		if info.Uses[id] == recv {
-			c.bad(key, call.Pos(), "AddValidator calls itself on the same receiver (no progress)")
+			// a retry on the same receiver makes progress only when it is taken because the cache GREW since the
+			// decision: the governing test is `<index parameter> < <value derived from len(recv.idx2pub)>`; the
+			// retried call then finds the index occupied and ends in the no-op or a fork-out branch
+			var gov *ast.IfStmt
+			for cur := ast.Node(call); cur != nil; cur = parents[cur] {
+				if is, ok := cur.(*ast.IfStmt); ok && gov == nil && is.Body.Pos() <= call.Pos() && call.End() <= is.Body.End() {
+					gov = is
+				}
+			}
+			grew := false
+			if gov != nil {
+				if be, ok := ast.Unparen(gov.Cond).(*ast.BinaryExpr); ok && be.Op == token.LSS {
+					if xi, ok := ast.Unparen(be.X).(*ast.Ident); ok && paramIndex(fd, info, info.Uses[xi]) >= 0 {
+						defs := singleDefs(info, fd.Body)
+						rhs := resolveLocal(info, be.Y, defs, 3)
+						ast.Inspect(rhs, func(k ast.Node) bool {
+							if cl, ok := k.(*ast.CallExpr); ok {
+								if fid, ok := cl.Fun.(*ast.Ident); ok && fid.Name == "len" && len(cl.Args) == 1 && isRecvField(info, cl.Args[0], recv, "idx2pub") {
+									grew = true
+								}
+							}
+							return true
+						})
+					}
+				}
+			}
+			if grew {
+				c.ok(key, call.Pos(), "retry on the same receiver only when the cache grew past the index since the decision (index < next expected index)")
+			} else {
+				c.bad(key, call.Pos(), "AddValidator calls itself on the same receiver (no progress)")
+			}
 			return true
 		}
 		// find the definition in the same block
